@@ -113,6 +113,7 @@ type world struct {
 	mops     []string // model ops issued so far
 	dirs     []string
 	initLine string // oracle init line ("" = reset)
+	initWrote bool  // a (re)initialisation of the running filter wrote to the database (unmodelled)
 	baseH    int64
 }
 
@@ -124,7 +125,16 @@ func (w *world) opts() []blockchain.Option {
 func (w *world) newNode(store db.KeyValueStore) *chain.Node {
 	n := chain.NewNode(store, w.seq.NewState, w.opts()...)
 	// force the lazy initialisation now: memory := reinit(disk at restart)
+	before := 0
+	if w.fd != nil {
+		before = w.fd.Count()
+	}
 	_, _ = queryEvents(n, 1, true, w.lo)
+	if w.fd != nil && w.fd.Count() > before {
+		// the initialisation itself wrote to the database (a fill rolled over a window end and persisted
+		// the window directly): not modelled, see findings
+		w.initWrote = true
+	}
 	return n
 }
 
